@@ -78,6 +78,10 @@ def gen_plan(seed, tier):
       # an earlier fit of the same object on the SAME points with other labels
       plan["history"] = dict(same_X=True, relabel=r.choice(["shift", "other_unknown", "both"]),
                              seed=r.randrange(10**6))
+  rs_ = substream(seed, "c08-samey")
+  if rs_.random() < 0.15:
+    # an earlier fit of the same object with the SAME labels on other points of the same shape
+    plan["history"] = dict(same_y=True, seed=rs_.randrange(10**6))
   return plan
 
 
@@ -223,6 +227,11 @@ def run_plan(plan):
           yh[rh.permutation(len(yh))[:max(1, len(yh) // 4)]] = -1
         Xh = X.copy()
         cov["with_history_same_X"] += 1
+      elif hist.get("same_y"):
+        rh = np_stream(hist["seed"], "samey")
+        Xh = X[rh.permutation(len(X))] * 3.0 + rh.randn(*X.shape)
+        yh = y.copy()
+        cov["with_history_same_labels_other_points"] += 1
       else:
         Dh = make_data(hist["dataset"])
         Xh, yh = Dh.X.copy(), Dh.y.copy()
